@@ -27,6 +27,15 @@ for pid, mod in (("C06", c06), ("C17", c17)):
         os.rename(panicfree.ACCEPTED_CKEYS + ".bak", panicfree.ACCEPTED_CKEYS)
 json.dump(out, open(panicfree.ACCEPTED_CKEYS, "w"), indent=1, sort_keys=True)
 print("accepted entries with recorded canonical keys:", {k: len(v) for k, v in out.items()})
+# other packs whose violations carry a canonical key
+import c08
+for pid, mod in (("C08", c08),):
+    chk = report.Check(pid); chk.finish = lambda *a, **k: 0
+    mod.run(fx, chk, "quick")
+    for v in chk.violations:
+        d = v.get("detail") or {}
+        if isinstance(d, dict) and d.get("ckey"):
+            ck_of[(pid, v["key"])] = v["key"].split("|")[0] + "|" + d["ckey"]
 # known findings
 lines = []
 n = 0
